@@ -180,7 +180,7 @@ pub fn get_supported_tribes(race: Race) -> [Tribe; 2] {
         Race::Roegadyn => [Tribe::SeaWolf, Tribe::Hellsguard],
         Race::AuRa => [Tribe::Raen, Tribe::Xaela],
         Race::Hrothgar => [Tribe::Hellion, Tribe::Lost],
-        Race::Viera => [Tribe::Raen, Tribe::Veena],
+        Race::Viera => [Tribe::Rava, Tribe::Veena],
     }
 }
 
